@@ -755,15 +755,27 @@ def r10_5(ctx, classes: Dict[str, LruClass]) -> None:
     # bound wrapper
     b = ctx.pkg.cls("_lrucache.LRUAsyncBoundCallable")
     sigs = {}
+    binit = b.methods.get("__init__")
+    bfields = {}
+    if binit is not None:
+        bp = binit.param_names()
+        for st in own_nodes(binit.node):
+            tg = st.targets[0] if isinstance(st, ast.Assign) else st.target if isinstance(st, ast.AnnAssign) else None
+            val = getattr(st, "value", None)
+            if isinstance(tg, ast.Attribute) and norm(tg.value) == "self" and isinstance(val, ast.Name) and val.id in bp[1:3]:
+                bfields["lru" if val.id == bp[1] else "self"] = tg.attr
+    if set(bfields) != {"lru", "self"}:
+        raise AnalysisError(f"LRUAsyncBoundCallable.__init__ does not store (cache object, instance): {bfields} (anchor moved)")
+    F_LRU, F_SELF = bfields["lru"], bfields["self"]
     for mname, attr in (("__call__", None), ("cache_discard", "cache_discard")):
         m = b.methods.get(mname)
         if m is None:
             raise AnalysisError(f"LRUAsyncBoundCallable.{mname} missing (anchor moved)")
         calls = [n for n in own_nodes(m.node) if isinstance(n, ast.Call) and
-                 (norm(n.func) == "self._lru" if attr is None else norm(n.func) == f"self._lru.{attr}")]
+                 (norm(n.func) == f"self.{F_LRU}" if attr is None else norm(n.func) == f"self.{F_LRU}.{attr}")]
         sig = [norm(a) for a in calls[0].args] + [f"**{norm(k.value)}" for k in calls[0].keywords if k.arg is None] if calls else None
         sigs[mname] = sig
-        ctx.check(bool(sig) and sig[0] == "self.__self__", "R10.5", m, mname,
+        ctx.check(bool(sig) and sig[0] == f"self.{F_SELF}", "R10.5", m, mname,
                   f"bound {mname} prepends the instance to the call pattern", witness=str(sig))
     ctx.check(sigs["__call__"] == sigs["cache_discard"], "R10.5", b.methods["cache_discard"], "cache_discard",
               "bound __call__ and cache_discard forward identical argument patterns (one shared store and key space)",
